@@ -172,7 +172,7 @@ def run(mod, pid, tier, seed, args, t0):
             path = vlib.write_replay(pid, seed, n, {
                 "property": pid, "broken": d.get("broken", "corr_" + pid), "seed": seed, "tier": tier,
                 "case": d["case"], "impl_observable": d.get("impl"), "model_observable": d.get("model"),
-                "spec_verdict": d.get("spec") or "no-failing-input-found", "known_class": None,
+                "spec_verdict": d.get("spec") or "no-failing-input-found", "known_class": None, "note": d.get("note"),
                 "shrunk_from_lines": d.get("shrunk_from_lines")})
             violations.append((path, "" if d.get("spec") else " no-failing-input-found"))
     if proof_problems:
